@@ -377,7 +377,7 @@ EDGE_ORACLE = {
 }
 
 
-@RULES.rule("R9.6", "codegen traversal follows each edge kind under the codegen switch of what the edge leads to", floor=15)
+@RULES.rule("R9.6", "codegen traversal follows each edge kind under the codegen switch of what the edge leads to", floor=17)
 def r9_6(rep):
     prog = rep.prog
     b = rep.need(prog.fn("ir::traversal::codegen_edges"), "traversal::codegen_edges")
@@ -397,6 +397,16 @@ def r9_6(rep):
         for k in sorted(kinds):
             rep.check(table.get(k) == sw, "edge:" + k, "EdgeKind::%s leads to %s; it must be followed iff codegen_config.%s() "
                       "(found `%s`)" % (k, sw, sw, table.get(k)), b.loc(ms[0]))
+    exits = [n for n in b.walk() if n["k"] == "Ret"]
+    tail = strip(b.root.get("tail") or {})
+    if tail.get("k") == "Local" and b.local_init(tail["id"]) is not None and tail["id"] not in b.local_assigned:
+        tail = strip(b.local_init(tail["id"]))
+    rep.check(not exits and tail is strip(ms[0]), "edge-predicate-is-the-table",
+              "codegen_edges decides by the table alone" if not exits and tail is strip(ms[0]) else
+              "codegen_edges has another way out than the per-kind table (%s): an edge refused here is refused for every item behind it; "
+              "refusing edges into blocklisted items loses the template arguments of a blocklisted template's instantiation, which the "
+              "bindings still name" % (", ".join(b.canon(strip(g), 4)[:80] for r_ in exits for pol, kind, g in b.guards(r_) if kind == "cond") or "the match is not the result"),
+              b.loc(exits[0] if exits else b.root))
     rep.check(table.get("Generic") == "is_enabled_for_codegen", "edge:Generic",
               "generic edges are followed iff the target is enabled for codegen (found `%s`)" % table.get("Generic"), b.loc(ms[0]))
     allb = rep.need(prog.fn("ir::traversal::all_edges"), "traversal::all_edges")
